@@ -129,7 +129,7 @@ func (i *RSAIdentity) unwrap(block *age.Stanza) ([]byte, error) {
 	fileKey, err := rsa.DecryptOAEP(sha256.New(), rand.Reader, i.k,
 		block.Body, []byte(oaepLabel))
 	if err != nil {
-		return nil, fmt.Errorf("failed to decrypt file key: %v", err)
+		return nil, &unopenedError{fmt.Errorf("failed to decrypt file key: %v", err)}
 	}
 	return fileKey, nil
 }
@@ -344,7 +344,7 @@ func (i *Ed25519Identity) unwrap(block *age.Stanza) ([]byte, error) {
 
 	fileKey, err := aeadDecrypt(wrappingKey, block.Body)
 	if err != nil {
-		return nil, fmt.Errorf("failed to decrypt file key: %v", err)
+		return nil, &unopenedError{fmt.Errorf("failed to decrypt file key: %v", err)}
 	}
 	return fileKey, nil
 }
@@ -353,6 +353,7 @@ func (i *Ed25519Identity) unwrap(block *age.Stanza) ([]byte, error) {
 // Identity.Unwrap in terms of a function that unwraps a single recipient
 // stanza.
 func multiUnwrap(unwrap func(*age.Stanza) ([]byte, error), stanzas []*age.Stanza) ([]byte, error) {
+	var unopened error
 	for _, s := range stanzas {
 		fileKey, err := unwrap(s)
 		if errors.Is(err, age.ErrIncorrectIdentity) {
@@ -361,13 +362,31 @@ func multiUnwrap(unwrap func(*age.Stanza) ([]byte, error), stanzas []*age.Stanza
 			// Decrypt into NoIdentityMatchError.Errors.
 			continue
 		}
+		if ue, ok := err.(*unopenedError); ok {
+			// The tag is only 32 bits: a stanza that carries it and does not
+			// open may belong to another recipient of the file. Keep looking,
+			// and report this failure if no other stanza opens.
+			if unopened == nil {
+				unopened = ue.err
+			}
+			continue
+		}
 		if err != nil {
 			return nil, err
 		}
 		return fileKey, nil
 	}
+	if unopened != nil {
+		return nil, unopened
+	}
 	return nil, age.ErrIncorrectIdentity
 }
+
+// unopenedError is returned by the unwrap functions for a stanza that matches
+// the key's tag but fails to decrypt.
+type unopenedError struct{ err error }
+
+func (e *unopenedError) Error() string { return e.err.Error() }
 
 // aeadEncrypt and aeadDecrypt are copied from package age.
 //
